@@ -167,6 +167,9 @@ class KernelX(Kernel):
             recv = self.ev(node.func.value, st, quiet)
             args = [self.ev(a, st, quiet) for a in node.args]
             kws = {k.arg: self.ev(k.value, st, quiet) for k in node.keywords}
+            if not isinstance(recv, (Arr, Tup)):
+                # module-qualified call (bitpacked._unpack_rvint, util.cumsum, ...): keep it for call-site checks
+                self.calls.append((cn, node, args, {k_: v_ for k_, v_ in kws.items() if k_}, st.copy() if self.record_stores else st))
             return self._method(recv, node.func.attr, args, kws, node, st)
         args = [self.ev(a, st, quiet) for a in node.args]
         kws = {k.arg: self.ev(k.value, st, quiet) for k in node.keywords if k.arg}
